@@ -4,8 +4,10 @@ import (
 	"encoding/json"
 	"fmt"
 	"math/rand"
+	"runtime"
 	"strings"
 	"sync"
+	"sync/atomic"
 
 	"github.com/honeycombio/refinery/metrics"
 	cq "github.com/honeycombio/refinery/verifharness/coqfmt"
@@ -28,6 +30,17 @@ type c33Input struct {
 	Par   int     `json:"par,omitempty"`
 	Block []c33Op `json:"block,omitempty"`
 	Tail  []c33Op `json:"tail,omitempty"`
+	// race phase: for every entry, Workers goroutines are released together (spin barrier) and each
+	// performs its FIRST operation on a fresh name that nothing has touched before; the name is
+	// never registered, or is registered by one more goroutine released at the same instant
+	Race []c33Race `json:"race,omitempty"`
+}
+
+// one fresh name: the operations of the racing goroutines (one each)
+type c33Race struct {
+	Kind string  `json:"kind"`          // counter updown
+	Ops  []int64 `json:"ops"`           // counter: 1 = Increment, n>1 = Count(n); updown: +1 = Up, -1 = Down
+	Reg  bool    `json:"reg,omitempty"` // a further goroutine registers the name concurrently
 }
 
 func init() {
@@ -108,7 +121,97 @@ func c33Gen(r *rand.Rand, tier string, i int) any {
 	for k := 1; k <= nn; k++ {
 		in.Tail = append(in.Tail, c33Op{Op: "get", Name: k})
 	}
+	if r.Intn(2) == 0 {
+		names := 24 + r.Intn(24)
+		if tier == "thorough" {
+			names = 48 + r.Intn(49)
+		}
+		workers := []int{2, 2, 3, 4, 6, 8}[r.Intn(6)]
+		for j := 0; j < names; j++ {
+			rc := c33Race{Kind: "counter", Reg: r.Intn(4) == 0}
+			if r.Intn(4) == 0 {
+				rc.Kind = "updown"
+			}
+			for w := 0; w < workers; w++ {
+				switch {
+				case rc.Kind == "updown" && r.Intn(3) == 0:
+					rc.Ops = append(rc.Ops, -1)
+				case rc.Kind == "counter" && r.Intn(3) == 0:
+					rc.Ops = append(rc.Ops, int64(2+r.Intn(9)))
+				default:
+					rc.Ops = append(rc.Ops, 1)
+				}
+			}
+			in.Race = append(in.Race, rc)
+		}
+	}
 	return in
+}
+
+const c33RaceBase = 1000 // names of the race phase: metric_1000, metric_1001, ...
+
+// c33RunRace releases, for every fresh name in turn, all its goroutines at the same instant.
+func c33RunRace(m *metrics.MultiMetrics, race []c33Race) {
+	maxW := 0
+	for _, rc := range race {
+		w := len(rc.Ops)
+		if rc.Reg {
+			w++
+		}
+		if w > maxW {
+			maxW = w
+		}
+	}
+	if maxW == 0 {
+		return
+	}
+	names := make([]string, len(race))
+	for i := range race {
+		names[i] = fmt.Sprintf("metric_%d", c33RaceBase+i)
+	}
+	gates := make([]atomic.Int32, len(race))
+	var wg sync.WaitGroup
+	for w := 0; w < maxW; w++ {
+		wg.Add(1)
+		go func(w int) {
+			defer wg.Done()
+			for i, rc := range race {
+				parties := len(rc.Ops)
+				if rc.Reg {
+					parties++
+				}
+				if w >= parties {
+					continue
+				}
+				// spin barrier: everybody arrives, then everybody goes at once
+				gates[i].Add(1)
+				for spins := 0; gates[i].Load() < int32(parties); spins++ {
+					if spins&1023 == 1023 {
+						runtime.Gosched()
+					}
+				}
+				if w == len(rc.Ops) { // the registering goroutine
+					mt := metrics.Counter
+					if rc.Kind == "updown" {
+						mt = metrics.UpDown
+					}
+					m.Register(metrics.Metadata{Name: names[i], Type: mt})
+					continue
+				}
+				switch v := rc.Ops[w]; {
+				case rc.Kind == "updown" && v < 0:
+					m.Down(names[i])
+				case rc.Kind == "updown":
+					m.Up(names[i])
+				case v == 1:
+					m.Increment(names[i])
+				default:
+					m.Count(names[i], v)
+				}
+			}
+		}(w)
+	}
+	wg.Wait()
 }
 
 func c33Kind(s string) (metrics.MetricType, string, error) {
@@ -276,11 +379,73 @@ func c33Run(raw json.RawMessage) (Case, error) {
 			return Case{}, err
 		}
 	}
+	var raceNames []uint64
+	if len(in.Race) > 0 {
+		if len(in.Race) > 4096 {
+			return Case{}, fmt.Errorf("race phase too large")
+		}
+		for _, rc := range in.Race {
+			if (rc.Kind != "counter" && rc.Kind != "updown") || len(rc.Ops) == 0 || len(rc.Ops) > 16 {
+				return Case{}, fmt.Errorf("bad race entry %+v", rc)
+			}
+			for _, v := range rc.Ops {
+				if (rc.Kind == "updown" && v != 1 && v != -1) || (rc.Kind == "counter" && v < 1) {
+					return Case{}, fmt.Errorf("bad race op %d for %s", v, rc.Kind)
+				}
+			}
+		}
+		c33RunRace(m, in.Race)
+		lost := 0
+		for i, rc := range in.Race {
+			nm := uint64(c33RaceBase + i)
+			raceNames = append(raceNames, nm)
+			// the model sees the racing operations one after the other: every interleaving must
+			// give the same total
+			if rc.Reg {
+				ck := "KCounter"
+				if rc.Kind == "updown" {
+					ck = "KUpDown"
+				}
+				ops = append(ops, cq.App("MReg", cq.N(nm), ck))
+			}
+			var want int64
+			for _, v := range rc.Ops {
+				want += v
+				switch {
+				case rc.Kind == "updown" && v < 0:
+					ops = append(ops, cq.App("MDown", cq.N(nm)))
+				case rc.Kind == "updown":
+					ops = append(ops, cq.App("MUp", cq.N(nm)))
+				case v == 1:
+					ops = append(ops, cq.App("MInc", cq.N(nm)))
+				default:
+					ops = append(ops, cq.App("MCount", cq.N(nm), cq.Z(v)))
+				}
+			}
+			v, ok := m.Get(fmt.Sprintf("metric_%d", nm))
+			ops = append(ops, cq.App("MGet", cq.N(nm)))
+			if !ok {
+				obs = append(obs, cq.None())
+				lost++
+			} else {
+				if v != float64(int64(v)) {
+					return Case{}, fmt.Errorf("Get(metric_%d) = %v is not integral", nm, v)
+				}
+				obs = append(obs, cq.Some(cq.Z(int64(v))))
+				if int64(v) != want {
+					lost++
+					human = append(human, fmt.Sprintf("race on fresh metric_%d (%s, ops %v, concurrent register %v): Get = %d, sum = %d", nm, rc.Kind, rc.Ops, rc.Reg, int64(v), want))
+				}
+			}
+		}
+		human = append(human, fmt.Sprintf("[race phase: %d fresh names, first operations released together; %d disagree with the sum]", len(in.Race), lost))
+		tags = append(tags, "race-on-fresh-names")
+	}
 	if reRegAfterUse {
 		tags = append(tags, "register-after-use")
 	}
-	coq := fmt.Sprintf("{| c_ops := %s; c_obs := %s |}", cq.List(ops), cq.List(obs))
-	return Case{Coq: coq, Key: strings.Join(ops, ";"), Nontriv: reRegAfterUse, Tags: tags,
+	coq := fmt.Sprintf("{| c_ops := %s; c_race := %s; c_obs := %s |}", cq.List(ops), cq.ListN(raceNames), cq.List(obs))
+	return Case{Coq: coq, Key: strings.Join(ops, ";"), Nontriv: reRegAfterUse || len(in.Race) > 0, Tags: tags,
 		Summary: map[string]any{"history": human}}, nil
 }
 
@@ -303,6 +468,18 @@ func c33Shrink(raw json.RawMessage) []json.RawMessage {
 			c.Block = smKeep(in.Block, keep)
 			add(c)
 		}
+	}
+	if len(in.Race) > 0 {
+		// a lost update is a matter of scheduling: keep the whole race phase while everything
+		// around it is cut away, then try a smaller race phase (re-run decides)
+		if len(in.Ops) > 0 || len(in.Tail) > 0 || in.Par > 1 {
+			c := in
+			c.Ops, c.Tail, c.Par, c.Block = nil, nil, 0, nil
+			add(c)
+		}
+		c := in
+		c.Race = nil
+		add(c)
 	}
 	for _, keep := range smChunkRemovals(len(in.Ops)) {
 		c := in
